@@ -576,8 +576,8 @@ def run_wire_check(prop, tier, seed):
     cases = list(ex)
     cases += gen_boundary(rng)
     cases += gen_scripts(rng)
-    cases += gen_random(rng, 20000 if thorough else 2500, "clean")
-    cases += gen_random(rng, 10000 if thorough else 1200, "hostile")
+    cases += gen_random(rng, 300000 if thorough else 2500, "clean")
+    cases += gen_random(rng, 150000 if thorough else 1200, "hostile")
     fb = set(all_float_bits(cases))
     ctor = gen_ctor_lines(rng, fb)
     fb = sorted(fb)
